@@ -140,7 +140,7 @@ def applyCmd (s : St) (c : Cmd) : St :=
   | .tryInsert e ty v => if s.alive e then { s with comp := upd s.comp e (aset (s.comp e) ty v) } else s
   | .insReact e ty =>
     -- (after the F2 fix) react only if the component was actually inserted
-    if (alookup (s.comp e) ty).isNone then s else
+    if (alookup (s.comp e) ty).isNone then s.emit (.insNoop e ty) else
     let rt : RType := ⟨.ins, ty⟩
     s.push [.flush, .batch ((entListeners s e rt).map (fun r => Cmd.reactEnt e rt r) ++ (s.tbl .ins ty).map (fun h => Cmd.reactEnt e rt h.sys))]
   | .mutReact e ty =>
